@@ -8,8 +8,12 @@
      entry 2 = ruint_macro::uint_with_path!       (literal: path group `[ruint]` is prepended;
                tree: the first item, if it opens a group, is that path group and stays outside
                stringify!)
+   fwd     bits entry src   : the program  fw!( src )  with
+                              macro_rules! fw { ($e:expr) => { ENTRY!( $e ) } }, in expression position:
+                              the literal reaches the macro inside a None-delimited group
    `bits` (first argument) only labels the case (suffix width or 0); it is not used.
-   items: pre-order token list, [0;d] open group (d = 0 ( 1 [ 2 { ), [1] close, 2::text a
+   items: pre-order token list, [0;d] open group (d = 0 ( 1 [ 2 { 3 None-delimited: an
+   expression fragment forwarded by macro_rules, invisible in the stringify! output), [1] close, 2::text a
    literal, 3::text any other token.
 
    Results.  literal: [TZ 0] passed through unchanged | [TZ kind; TZ bits; TZ LIMBS; TL limbs]
@@ -21,6 +25,7 @@ From RV.Model Require Import Base Macro.
 
 Inductive call : Type :=
 | literal (bits : Z) (entry : Z) (src : list Z)
+| fwd (bits : Z) (entry : Z) (src : list Z)
 | tree (bits : Z) (entry : Z) (items : list (list Z)).
 
 (* ---------- items <-> forests ---------- *)
@@ -111,6 +116,13 @@ Definition observe_literal (o : outcome (list Macro.tree)) : result :=
   | _ => CompileError
   end.
 
+(* the same through an expression fragment: the output is the None group around the literal *)
+Definition observe_fwd (o : outcome (list Macro.tree)) : result :=
+  match o with
+  | Val [Group 3 inner] => observe_literal (Val inner)
+  | _ => CompileError
+  end.
+
 Definition observe_tree (o : outcome (list Macro.tree)) : result :=
   match o with
   | Val [Other _; Other _; Group 0 inner] => Val (flat_map flat_tree inner)
@@ -122,6 +134,10 @@ Definition run (c : call) : result :=
   | literal _ entry src =>
       observe_literal
         (entry_fn entry ((if entry =? 2 then [Group 1 [Other t_ruint]] else []) ++ [Lit src]))
+  | fwd _ entry src =>
+      observe_fwd
+        (entry_fn entry ((if entry =? 2 then [Group 1 [Other t_ruint]] else [])
+                         ++ [Group 3 [Lit src]]))
   | tree _ entry items =>
       match forest_of items with
       | None => OutOfFuel                      (* ill-formed items: excluded by wf *)
@@ -220,25 +236,33 @@ Definition spec_literal (src : list Z) : lit_spec :=
   end.
 
 (* -- trees, on the flat item list: every literal item is replaced on its own, whatever its
-      depth; every other item is unchanged -- *)
-Definition raw_item (it : list Z) : list tok :=
-  match classify it with
-  | IOpen d => [TZ (10 + d)]
-  | IClose => [TZ 20]
-  | ILit t => [TY t]
-  | IOther t => [TY t]
-  | IBad => []
+      depth; every other item is unchanged.  The walk keeps the stack of open delimiters only
+      because a None-delimited group (d = 3) prints neither its opening nor its closing -- *)
+Definition open_toks (d : Z) : list tok := if d =? 3 then [] else [TZ (10 + d)].
+Definition close_toks (d : Z) : list tok := if d =? 3 then [] else [TZ 20].
+
+Fixpoint walk (lit : list Z -> list tok) (stack : list Z) (items : list (list Z)) : list tok :=
+  match items with
+  | [] => []
+  | it :: rest =>
+      match classify it with
+      | IOpen d => open_toks d ++ walk lit (d :: stack) rest
+      | IClose => match stack with
+                  | d :: st => close_toks d ++ walk lit st rest
+                  | [] => TZ 20 :: walk lit [] rest
+                  end
+      | ILit t => lit t ++ walk lit stack rest
+      | IOther t => TY t :: walk lit stack rest
+      | IBad => walk lit stack rest
+      end
   end.
 
-Definition spec_item (path : list tok) (it : list Z) : list tok :=
-  match classify it with
-  | ILit t =>
-      match spec_literal t with
-      | SPass => [TY t]
-      | SExpand kind bits limbs => path ++ [TZ (30 + kind); TZ bits; TZ (nlimbs bits); TL limbs]
-      | SReject => [TErr 1]
-      end
-  | _ => raw_item it
+Definition raw_lit (t : list Z) : list tok := [TY t].
+Definition spec_lit (path : list tok) (t : list Z) : list tok :=
+  match spec_literal t with
+  | SPass => [TY t]
+  | SExpand kind bits limbs => path ++ [TZ (30 + kind); TZ bits; TZ (nlimbs bits); TL limbs]
+  | SReject => [TErr 1]
   end.
 Definition item_rejected (it : list Z) : bool :=
   match classify it with
@@ -265,14 +289,14 @@ Definition tok_dollar_crate : list tok := [TY [36; 99; 114; 97; 116; 101]].
 Definition tok_default_crate : list tok := [TY [58]; TY [58]; TY [114; 117; 105; 110; 116]].
 
 Definition spec_tree_with (path : list tok) (items : list (list Z)) (o : result) : bool :=
-  let expected := flat_map (spec_item path) items in
+  let expected := walk (spec_lit path) [] items in
   (* a rejected literal must be a compile error: either the compile_error! invocation is
      visible in the stringified output, or the whole expansion failed *)
   expect o expected || (existsb item_rejected items && result_eqb o CompileError).
 
 Definition spec (c : call) (o : result) : bool :=
   match c with
-  | literal _ entry src =>
+  | literal _ entry src | fwd _ entry src =>
       match spec_literal src with
       | SPass => expect o [TZ 0]
       | SExpand kind bits limbs => expect o [TZ kind; TZ bits; TZ (nlimbs bits); TL limbs]
@@ -286,7 +310,7 @@ Definition spec (c : call) (o : result) : bool :=
                match classify it with
                | IOpen _ =>
                    match split_group 0 rest [] with
-                   | Some (p, rest') => spec_tree_with (flat_map raw_item p) rest' o
+                   | Some (p, rest') => spec_tree_with (walk raw_lit [] p) rest' o
                    | None => false
                    end
                | _ => result_eqb o CompileError  (* "Expected a group containing the path" *)
@@ -306,7 +330,7 @@ Definition width_ok (src : list Z) : bool :=
 Definition src_ok (src : list Z) : bool := forallb byteb src && width_ok src.
 Definition item_ok (it : list Z) : bool :=
   match classify it with
-  | IOpen d => (0 <=? d) && (d <=? 2)
+  | IOpen d => (0 <=? d) && (d <=? 3)
   | IClose => true
   | ILit t => src_ok t
   | IOther t => forallb byteb t
@@ -316,7 +340,7 @@ Definition entry_ok (entry : Z) : bool := (0 <=? entry) && (entry <=? 2).
 
 Definition wfb (c : call) : bool :=
   match c with
-  | literal _ entry src => entry_ok entry && src_ok src
+  | literal _ entry src | fwd _ entry src => entry_ok entry && src_ok src
   | tree _ entry items =>
       entry_ok entry && forallb item_ok items &&
       match forest_of items with Some _ => true | None => false end
